@@ -493,6 +493,17 @@ pub fn lex_supported(src: &str) -> bool {
             let mut j = i + 1; while j < cs.len() && cs[j] != '"' && cs[j] != '\\' { j += 1; }
             if j < cs.len() && cs[j] == '"' { i = j + 1; prev_word = false; } else { return false; }
         }
+        else if c == '\\' {
+            // twin of the `escaped_compound_variable` branch of the lexer model (`isEscapedRun`, `escapedFollowBad`)
+            let mut j = i + 1; while j < cs.len() && is_word_char(cs[j]) { j += 1; }
+            let run = &cs[i + 1..j];
+            if !escaped_run(run) { return false; }
+            let mut k = j; while k < cs.len() && (cs[k] == ' ' || cs[k] == '\t') { k += 1; }
+            if cs.get(k) == Some(&'[') { return false; }
+            let last_digits = run.split(|&x| x == '_').last().map(|x| x.iter().all(|c| c.is_ascii_digit())).unwrap_or(false);
+            if last_digits && j + 1 < cs.len() && cs[j] == '.' && cs[j + 1].is_ascii_digit() { return false; }
+            i = j; prev_word = true;
+        }
         else { return false; }
         last_word_graph = now_graph;
     }
@@ -523,6 +534,12 @@ pub fn has_glued_keyword(src: &str) -> bool {
 // `parse-program` with `in-fragment` / `out-of-fragment`, so a twin that drifts shows up as a correspondence mismatch.
 const KEYWORDS: [&str; 18] = ["for", "min", "max", "where", "true", "false", "in", "as", "define", "let", "solve", "and", "or", "not", "implies", "iff", "xor", "_"];
 fn plain_run_s(s: &str) -> bool { let cs: Vec<char> = s.chars().collect(); is_plain_run(&cs) }
+fn escaped_run(run: &[char]) -> bool {
+    let segs: Vec<&[char]> = run.split(|&x| x == '_').collect();
+    segs.len() >= 2 && is_plain_run(segs[0]) && segs[1..].iter().all(|x| !x.is_empty() && (x.iter().all(|c| c.is_ascii_digit()) || is_plain_run(x)))
+}
+fn escaped_var(s: &str) -> bool { let cs: Vec<char> = s.chars().collect(); escaped_run(&cs) && !KEYWORDS.contains(&s) }
+fn name_var(s: &str) -> bool { plain_var(s) || escaped_var(s) }
 fn plain_var(s: &str) -> bool { plain_run_s(s) && !KEYWORDS.contains(&s) }
 fn float_text(s: &str) -> bool {
     let mut p = s.splitn(2, '.');
@@ -544,7 +561,7 @@ pub fn core_exp(e: &PreExp, lexeme: bool) -> bool {
             Primitive::Iterable(rooc::IterableKind::Anys(v)) => v.is_empty(),
             _ => false,
         },
-        PreExp::Variable(n) => plain_var(n.value()),
+        PreExp::Variable(n) => name_var(n.value()),
         PreExp::CompoundVariable(c) => plain_run_s(&c.name) && !c.indexes.is_empty() && core_idx(&c.indexes, lexeme),
         PreExp::ArrayAccess(a) => plain_run_s(&a.name) && a.name != "not" && !a.accesses.is_empty() && a.accesses.iter().all(|x| core_exp(x, lexeme)),
         PreExp::FunctionCall(_, f) => f.name != "not" && !f.name.is_empty() && f.name.chars().all(is_letter) && f.args.iter().all(|x| core_exp(x, lexeme)),
@@ -570,7 +587,7 @@ fn core_idx(idx: &[PreExp], lexeme: bool) -> bool {
             let bare = s.starts_with('_') && !rest.is_empty() && rest.chars().all(|c| is_letter(c) || c.is_ascii_digit());
             !bare && core_exp(e, lexeme)
         }
-        PreExp::Variable(n) => plain_run_s(n.value()),
+        PreExp::Variable(n) => plain_run_s(n.value()) || escaped_var(n.value()),
         other => core_exp(other, lexeme),
     })
 }
@@ -589,7 +606,7 @@ fn core_for(its: &[IterableSet], lexeme: bool) -> bool {
 }
 fn core_name(v: &Variable, lexeme: bool) -> bool {
     match v {
-        Variable::Variable(n) => plain_var(n),
+        Variable::Variable(n) => name_var(n),
         Variable::CompoundVariable(c) => plain_run_s(&c.name) && !c.indexes.is_empty() && core_idx(&c.indexes, lexeme),
     }
 }
